@@ -147,6 +147,8 @@ def collect_reads_in_parallel(sample, chr_id, args):
         for g in read_grouper.read_groups:
             group_dump.write("%s\n" % g)
     alignment_collector.alignment_stat_counter.dump(bamstat_file)
+    # the saved assignments must be complete on disk before the lock announces them
+    tmp_printer.close()
 
     logger.info("Finished processing chromosome " + chr_id)
     open(lock_file, "w").close()
